@@ -1425,8 +1425,13 @@ def _make_c_or_py_source(ffi, module_name, preamble, target_file, verbose):
     recompiler.write_source_to_f(f, preamble)
     output = f.getvalue()
     try:
-        with open(target_file, 'r') as f1:
-            if f1.read(len(output) + 1) != output:
+        # compare without newline translation, with what the text-mode
+        # write below puts into the file
+        expected = output
+        if os.linesep != '\n':
+            expected = output.replace('\n', os.linesep)
+        with open(target_file, 'r', newline='') as f1:
+            if f1.read(len(expected) + 1) != expected:
                 raise OSError
         if verbose:
             print("(already up-to-date)")
